@@ -144,6 +144,10 @@ class Tr:
         n = self.array_len_of(x)
         if n is not None:
             return Lin.const(n)
+        if x[0] == "call" and x[1] in ("std::option::Option::<T>::insert", "std::option::Option::<T>::get_or_insert") and len(x[2]) == 2 and x[1].endswith("insert") and not x[1].endswith("get_or_insert"):
+            return self.length(x[2][1])      # `slot.insert(v)` hands back a reference to v as stored
+        if x[0] == "field" and x[3] == "0" and x[1][0] == "downcast" and x[1][2] == "Some" and look(x[1][1])[0] == "agg" and look(x[1][1])[2] == "Some":
+            return self.length(look(x[1][1])[3][0])     # the payload of a literal Some(v)
         if x[0] == "call" and x[1] in self.tables and len(x[2]) == 1:
             a = look(x[2][0])
             if a[0] == "agg" and a[2] in self.tables[x[1]]:
@@ -171,7 +175,28 @@ class Tr:
             if isinstance(k, int) and k >= 1:
                 self.trusted_used.add("str::splitn(n >= 1, _) yields between 1 and n items")
                 return self.atom(("len", x), 1, k)
-        return self.atom(("len", x), 0, MAX_LEN)
+        return self.atom(("len", self._len_key(x)), 0, MAX_LEN)
+
+    HARMLESS_BORROWS = ("as_mut", "as_ref", "as_deref", "as_deref_mut", "as_slice", "as_mut_slice", "deref", "deref_mut", "is_some", "is_none", "len", "is_empty", "iter", "ok_or", "ok_or_else", "unwrap", "expect")
+
+    def _len_key(self, x):
+        """One key for the length of one object however it is reached: the payload of an Option taken with `?`, `ok_or(..)?`,
+        a match binding or `if let`, through as_mut / as_ref, and through `mutated-by` marks left by calls that only borrow."""
+        def strip(t):
+            t = look(t)
+            while t[0] == "mut" and last_seg(t[2]) in self.HARMLESS_BORROWS and t[2].split("::")[0] in ("std", "core", "alloc"):
+                t = look(t[1])
+            return t
+        x = strip(x)
+        src = payload_of(x)
+        if src is not None and x[0] != "bin":
+            src = strip(src)
+            while src[0] == "call" and last_seg(src[1]) in ("as_mut", "as_ref", "as_deref", "as_deref_mut", "ok_or", "ok_or_else") and src[1].split("::")[0] in ("std", "core") and src[2]:
+                src = strip(src[2][0])
+            if src[0] == "agg" and src[2] == "Some" and src[3]:
+                return self._len_key(src[3][0])      # the payload of a literal Some(v) is v
+            return ("payload-of", canon(src))
+        return x
 
     # --- terms
     def lin(self, t):
@@ -395,6 +420,16 @@ class Tr:
                 self.st.add_eq(a - b)
             else:
                 self.st.add_ne(a - b)
+            return
+        if is_call(x, "is_none", "is_some") and len(x[2]) == 1 and tv is not None and is_call(look(x[2][0]), "checked_sub") and len(look(x[2][0])[2]) == 2:
+            # `a.checked_sub(b).is_none()` is a < b; `.is_some()` is b <= a
+            y = look(x[2][0])
+            a, b = self.lin(y[2][0]), self.lin(y[2][1])
+            some = tv if last_seg(x[1]) == "is_some" else not tv
+            if some:
+                self.st.add_le(b - a)
+            else:
+                self.st.add_le(a - b + Lin.const(1))
             return
         if is_call(x, "contains") and len(x[2]) == 2 and tv is True:
             # `(a..b).contains(&v)` / `(a..=b).contains(&v)` found true: a <= v and v < b / v <= b
@@ -650,6 +685,8 @@ class PanicAnalysis:
                 elif rk == "RangeFrom":
                     a = tr.lin(r[3][0])
                     ok = st.entails_le(a - L)
+            if not ok and __import__("os").environ.get("MHSA_DEBUG_LEN"):
+                print("DEBUG base", term_s(base)[:600]); print("DEBUG idx ", term_s(idx)[:900])
             self.record(fn, "call", "drain|%s" % desc[:110], desc, loc, e[1], ok, "" if ok else "range end <= len not entailed")
             return
         if kind == "copy-within":
